@@ -29,7 +29,9 @@ func readGitConfig(configs ...*git.ConfigurationSource) (gf *GitFetcher, extensi
 		for _, line := range gc.Lines {
 			pieces := strings.SplitN(line, "=", 2)
 			if len(pieces) < 2 {
-				continue
+				// A key without a value: a boolean that is true,
+				// as Git reads it.
+				pieces = append(pieces, "true")
 			}
 
 			allowed := !gc.OnlySafeKeys
